@@ -2,6 +2,7 @@ package main
 
 import (
 	"bytes"
+	"compress/gzip"
 	"crypto/sha256"
 	"fmt"
 	"math/rand"
@@ -206,6 +207,11 @@ func genC07(r *rand.Rand, rg *c07Rig, id string, thorough bool) *c07Req {
 	var p strings.Builder
 	if q.Route >= 0 && rg.routes[q.Route].Strip != "" && r.Intn(6) > 0 {
 		p.WriteString(rg.routes[q.Route].Strip)
+		if r.Intn(8) == 0 {
+			// what follows the stripped prefix starts with a slash the client has encoded: it is data, and the path the
+			// upstream gets must still be an absolute one
+			p.WriteString("%2F" + choose(r, c07Segs))
+		}
 	}
 	for n := r.Intn(5); n > 0; n-- {
 		p.WriteString("/" + choose(r, c07Segs))
@@ -328,6 +334,15 @@ func genC07(r *rand.Rand, rg *c07Rig, id string, thorough bool) *c07Req {
 	sc.Headers = []rawhttp.Header{{Name: "Content-Type", Value: choose(r, []string{"application/octet-stream", "text/plain", "application/x-verif"})}, {Name: "X-Up", Value: id}}
 	for m := r.Intn(4); m > 0; m-- {
 		sc.Headers = append(sc.Headers, rawhttp.Header{Name: choose(r, []string{"Set-Cookie", "X-Multi", "Cache-Control", "ETag", "Location", "X-Long"}), Value: choose(r, []string{"a=b; Path=/", "v1", "v2, v3", `"tag"`, "/other?x=1", strings.Repeat("R", 3000)})})
+	}
+	if r.Intn(15) == 0 && len(sc.Body) > 0 {
+		// the upstream answers with a gzip-encoded representation (whether or not it was asked to): label and bytes pass as they are
+		var zb bytes.Buffer
+		zw := gzip.NewWriter(&zb)
+		zw.Write(sc.Body)
+		zw.Close()
+		sc.Body = zb.Bytes()
+		sc.Headers = append(sc.Headers, rawhttp.Header{Name: "Content-Encoding", Value: "gzip"})
 	}
 	if sc.Framing == "chunked" && r.Intn(3) == 0 {
 		sc.Trailers = []rawhttp.Header{{Name: "X-Trailer-Sum", Value: fmt.Sprintf("%x", sha256.Sum256(sc.Body))[:16]}}
@@ -623,10 +638,9 @@ func c07One(c *ctx, which string, rg *c07Rig, q *c07Req, unrouted *atomic.Int64)
 		} else if g := got.Get("User-Agent"); strings.Join(g, "|") != strings.Join(ua, "|") && !(ua[0] == "" && len(g) == 0) {
 			viol("c07", "request-header-changed", fmt.Sprintf("User-Agent: client sent %q, upstream saw %q", ua, g))
 		}
-		if ae := q.sent("Accept-Encoding"); len(ae) > 0 {
-			if g := got.Get("Accept-Encoding"); strings.Join(g, "|") != strings.Join(ae, "|") {
-				viol("c07", "request-header-changed", fmt.Sprintf("Accept-Encoding: client sent %q, upstream saw %q", ae, g))
-			}
+		if ae, g := q.sent("Accept-Encoding"), got.Get("Accept-Encoding"); strings.Join(g, "|") != strings.Join(ae, "|") {
+			// also when the client sent none: a negotiation started on the client's behalf changes what the upstream answers
+			viol("c07", "request-header-changed", fmt.Sprintf("Accept-Encoding: client sent %q, upstream saw %q", ae, g))
 		}
 		// ---------- C07: response fidelity ----------
 		sc := q.Script
